@@ -440,6 +440,28 @@ func framer(args []string) {
 				}
 			}
 		}
+		// the stream ends inside a frame whose payload holds a complete valid smaller frame (and a start byte after it):
+		// cut before, inside and after the inner frame - the tail is one piece of other data, whatever it contains
+		for k := 0; k < 2*scale; k++ {
+			inner := gen.Frame(rng, []int{1007, 1230, 1033}[k%3], 2+rng.Intn(6), 0)
+			pl := gen.Cat([]byte{0x40, 0x90, 0x00}, gen.Junk(rng, 1+rng.Intn(3), 0), inner, gen.Junk(rng, 2, 1), []byte{0xd3, 0x00}, gen.Junk(rng, 6, 0))
+			outer := tr.Frame(pl)
+			head := gen.Cat(gen.Frame(rng, 1005, 19, 0), gen.Junk(rng, k%2*3, 1))
+			at := 0
+			for i := 0; i+len(inner) <= len(outer); i++ {
+				if string(outer[i:i+len(inner)]) == string(inner) {
+					at = i
+					break
+				}
+			}
+			for _, cut := range []int{at + 2, at + len(inner) - 1, at + len(inner), at + len(inner) + 1, at + len(inner) + 3, at + len(inner) + 5, len(outer) - 1} {
+				if cut <= 0 || cut >= len(outer) {
+					continue
+				}
+				s := gen.Cat(head, outer[:cut])
+				victimize(s, nil, cut, fmt.Sprintf("tail holding a frame, cut %d/%d", cut, len(outer)))
+			}
+		}
 		// truncation of the last frame at every byte
 		for i := 0; i < 1*scale; i++ {
 			head := gen.Cat(gen.Junk(rng, rng.Intn(5), 1), gen.Frame(rng, gen.TypeClass(rng, i), 1+rng.Intn(9), 0))
@@ -515,6 +537,15 @@ func framer(args []string) {
 			{0xd3, 0, 0, 0, 0, 0, 0}, {1}, {1, 2}, {0xd3, 0xd3, 0xd3, 0xd3, 0xd3, 0xd3, 0xd3, 0xd3, 0xd3, 0xd3, 0xd3}} {
 			for k := 0; k < 3; k++ {
 				run(s, "special")
+			}
+		}
+		// every prefix of a frame whose payload holds a complete valid smaller frame, other data and a start byte
+		for k := 0; k < 1*scale; k++ {
+			inner := gen.Frame(rng, []int{1007, 1230}[k%2], 2+rng.Intn(4), 0)
+			outer := tr.Frame(gen.Cat([]byte{0x40, 0x90, 0x00}, inner, gen.Junk(rng, 2, 1), []byte{0xd3, 0x00}, gen.Junk(rng, 4, 0)))
+			head := gen.Frame(rng, 1005, 19, 0)
+			for cut := 1; cut < len(outer); cut++ {
+				run(gen.Cat(head, outer[:cut]), fmt.Sprintf("tail holding a frame, cut %d/%d", cut, len(outer)))
 			}
 		}
 		// arbitrary garbage with embedded start bytes, all capacities
